@@ -26,15 +26,17 @@ import (
 
 // pair is a two-client world with a number of ledger channels between them.
 type pair struct {
-	midClose     func()                     // C03: runs between a sub-channel's final update and its settlement
-	craftedFunds map[client.ProposalID]bool // C08: crafted proposals that are invalid only because of the funds they ask for
-	eager        bool                       // C06: updates may start before the responder's Accept has returned
-	s            *world.Sim
-	w            *world.World
-	n            [2]*world.Node
-	chans        [][2]*client.Channel // [k][side]
-	ids          []channel.ID
-	subs         []subInfo
+	cancelOnEnable bool                          // the next pay cancels its context when its state is enabled
+	coe            map[string]context.CancelFunc // armed cancellations by side:channel
+	midClose       func()                        // C03: runs between a sub-channel's final update and its settlement
+	craftedFunds   map[client.ProposalID]bool    // C08: crafted proposals that are invalid only because of the funds they ask for
+	eager          bool                          // C06: updates may start before the responder's Accept has returned
+	s              *world.Sim
+	w              *world.World
+	n              [2]*world.Node
+	chans          [][2]*client.Channel // [k][side]
+	ids            []channel.ID
+	subs           []subInfo
 	// agree[k] is the funding agreement the scenario intended for channel k
 	agree []channel.Balances
 	// watchSide says which sides run Channel.Watch on their channels
@@ -311,6 +313,19 @@ func (p *pair) open(step int, side int, st *kernel.Step) int {
 	return k
 }
 
+// enabledHook is called from a node's persister when a state was enabled.
+func (p *pair) enabledHook(side int, id channel.ID) {
+	k := fmt.Sprintf("%d:%x", side, id)
+	p.mu.Lock()
+	c := p.coe[k]
+	delete(p.coe, k)
+	p.mu.Unlock()
+	if c != nil {
+		c()
+		p.s.Count("fault.cancel_on_enable", 1)
+	}
+}
+
 func (p *pair) setTimeout() {
 	p.mu.Lock()
 	p.timeout = true
@@ -323,6 +338,19 @@ func (p *pair) pay(step int, ch *client.Channel, side int, amt int64, timeout ti
 	o := &opRec{step: step, op: "pay", side: side, ch: ch.ID(), start: p.s.Now(), enBefore: len(me.Rec.EnabledOf(ch.ID()))}
 	ctx, cancel := context.WithTimeout(context.Background(), timeout+p.s.Delay(fmt.Sprintf("ctx:pay:%d", step), 0, time.Millisecond))
 	defer cancel()
+	if p.cancelOnEnable {
+		// the caller cancels its context the moment it learns (through its
+		// persister) that the new state has been enabled - Update is still
+		// running then and has yet to hand the state to the watcher
+		p.cancelOnEnable = false
+		p.mu.Lock()
+		if p.coe == nil {
+			p.coe = map[string]context.CancelFunc{}
+		}
+		p.coe[fmt.Sprintf("%d:%x", side, ch.ID())] = cancel
+		p.mu.Unlock()
+		p.s.Count("fault.cancel_on_enable_armed", 1)
+	}
 	idx := int(ch.Idx())
 	err := ch.Update(ctx, func(s *channel.State) {
 		a := big.NewInt(amt)
